@@ -403,6 +403,7 @@ type C05Typed struct {
 	Leaves []*Val     `json:"leaves"`
 	Dir    *Directive `json:"dir"`
 	Reg    []string   `json:"reg,omitempty"`
+	Hidden bool       `json:"hidden,omitempty"` // the container sits in an unexported field
 }
 
 func init() {
@@ -477,6 +478,13 @@ func checkC05Typed(s *C05Typed) Result {
 			return p.Elem().Interface()
 		}
 		typed, untyped = mk(t0, t1), mk(ifaceType, ifaceType)
+	}
+	if s.Hidden && s.Shape != "rvro" && s.Shape != "rvslice" && s.Shape != "pstruct" { // (a nested pointer prints its address)
+		// both containers behind an unexported field: nothing inside can be
+		// boxed, so only types and bits decide (methods and SafeValue markers
+		// are out of reach in both shapes alike)
+		typed, untyped = StructA{z: typed}, StructA{z: untyped}
+		res.Classes = append(res.Classes, "hidden")
 	}
 	res.Classes = append(res.Classes, "shape:"+s.Shape, "elem:"+s.Leaves[0].K)
 	res.NonTrivial = declaredSafe(s.Leaves[0].K, regMap(s.Reg)) || declaredSafe(s.Leaves[1].K, regMap(s.Reg))
